@@ -807,7 +807,18 @@ def _reductions(case, v=None):
         yield "symlink:" + path, f
 
 
+class _Disturbed(Exception):
+    pass
+
+
 def _minimise(ctx, case, ri, cat):
+    try:
+        return _minimise1(ctx, case, ri, cat)
+    except _Disturbed:
+        return None, None
+
+
+def _minimise1(ctx, case, ri, cat):
     """greedy reduction of a violating tree to a single run with as few names, sites, search directories,
     symlinks and hazardous spellings as still show a violation of the same category"""
     budget = [34]
@@ -819,7 +830,10 @@ def _minimise(ctx, case, ri, cat):
         try:
             rs = _run_tree_once(ctx, c, "m%d" % budget[0])
         except Exception:
-            return None
+            # e.g. the shared build being relinked under us: no verdict from a disturbed reduction
+            raise _Disturbed()
+        if rs[0][3]:
+            raise _Disturbed()
         for v in rs[0][0]:
             if v["cat"] == cat:
                 return v
